@@ -49,7 +49,35 @@ def _cvc5_check(smt2, timeout_ms, strings=False):
             pass
 
 
-def discharge(ob, timeout_ms=10000, seed=0, use_cvc5=True, strings=False, on_model=None):
+def isolated(fn, fallback):
+    """Run fn() in a forked child and return its (picklable) result; if the child dies (solver segfault) return fallback()."""
+    import pickle
+
+    r, w = os.pipe()
+    pid = os.fork()
+    if pid == 0:
+        code = 1
+        try:
+            os.close(r)
+            data = pickle.dumps(fn())
+            with os.fdopen(w, "wb") as f:
+                f.write(data)
+            code = 0
+        finally:
+            os._exit(code)
+    os.close(w)
+    with os.fdopen(r, "rb") as f:
+        data = f.read()
+    _, status = os.waitpid(pid, 0)
+    if status == 0 and data:
+        try:
+            return pickle.loads(data)
+        except Exception:
+            pass
+    return fallback()
+
+
+def discharge(ob, timeout_ms=10000, seed=0, use_cvc5=True, strings=False, on_model=None, _inner=False):
     """-> dict(name, result in {unsat, sat, unknown}, backend, seconds, model?)
 
     Portfolio (quantified VCs are sensitive to the solver's search order, so several
@@ -58,6 +86,24 @@ def discharge(ob, timeout_ms=10000, seed=0, use_cvc5=True, strings=False, on_mod
       4 z3 mbqi (seeds b, c)   5 cvc5 full budget
     Only `unsat` discharges; `sat` is accepted from the mbqi attempts (models).
     """
+    if strings and not _inner:
+        # z3 5.1's sequence solver occasionally segfaults: string obligations are decided in a child process; if it dies, cvc5 alone decides
+        def crashed():
+            rec = dict(name=ob.name, kind=ob.kind, result="unknown", backend="cvc5", seconds=0.0, reason="z3 process crashed on this obligation")
+            try:
+                sv = z3.Solver()
+                for h in ob.hyps:
+                    sv.add(h)
+                sv.add(z3.Not(ob.goal))
+                res, dt, err = _cvc5_check(sv.to_smt2(), timeout_ms, strings=True)
+                rec.update(result=res if res in ("unsat", "sat") else "unknown", seconds=round(dt, 3))
+                if rec["result"] == "unknown":
+                    rec["reason"] += " | cvc5: %s %s" % (res, err.strip()[:120])
+            except Exception as e:
+                rec["reason"] += " | cvc5 error: %s" % e
+            return rec
+
+        return isolated(lambda: discharge(ob, timeout_ms, seed, use_cvc5, strings, on_model, _inner=True), crashed)
     rec = dict(name=ob.name, kind=ob.kind)
     total = 0.0
     reasons = []
@@ -136,8 +182,10 @@ def model_to_dict(m):
     return out
 
 
-def canary(pc, timeout_ms=1500):
+def canary(pc, timeout_ms=1500, strings=False):
     """Is the path condition refutable?  unsat => the path is unreachable."""
+    if strings:
+        return isolated(lambda: canary(pc, timeout_ms), lambda: "open")
     s = z3.Solver()
     s.set("timeout", int(timeout_ms))
     s.set("smt.mbqi", False)
